@@ -51,14 +51,14 @@ def obligations(tier):
     q = tier == 'quick'
     o = []
     for dec in (0, 1, 2, 3):
-        for bw in ([1, 3, 8] if q else [1, 2, 3, 8, 9, 16]) + ([] if dec in (1, 2) else ([17] if q else [17, 32])):
+        for bw in ([1, 3, 8, 9] if q else [1, 2, 3, 8, 9, 16]) + ([] if dec in (1, 2) else ([17] if q else [17, 32])):
             for n in ([0, 1, 8, 9] if q else [0, 1, 2, 7, 8, 9, 10, 12]):
                 o.append(rle(dec, bw, n))
             o.append(rle(dec, bw))
     for wide in (0, 1):
         for n in ([1, 2] if q else [1, 2]):
             o.append(delta(wide, n, 0))
-        o.append(delta(wide, 0, 0))     # known finding F-DELTA-EMPTY
+        o.append(delta(wide, 0, 0))     # the empty sequence (finding F-DELTA-EMPTY, fixed by /repo f0886c2)
         for n in ([2, 3, 5] if q else [2, 3, 5, 9]):
             o.append(delta(wide, n, 1))
     if not q:
